@@ -267,7 +267,9 @@ pub fn custom_op(sh: &Rc<Shared>, uid: usize, kind: &CustomKind, coef: &[f64], s
 }
 
 /// Applies an operation of the vocabulary to real handles. May panic (caught by the caller).
-pub fn apply_op(sh: &Rc<Shared>, uid: usize, op: &Op, a: &[&Array], any_tracked: bool) -> Array {
+/// `salt`: the destination slot, which (unlike `uid`) stays the same when events are removed from a trace,
+/// so that call-shape alternations keyed on it survive minimisation.
+pub fn apply_op(sh: &Rc<Shared>, uid: usize, salt: usize, op: &Op, a: &[&Array], any_tracked: bool) -> Array {
     match op {
         Op::Add => a[0] + a[1],
         Op::Sub => a[0] - a[1],
@@ -290,7 +292,7 @@ pub fn apply_op(sh: &Rc<Shared>, uid: usize, op: &Op, a: &[&Array], any_tracked:
         Op::Activation { act, detach } => {
             // an untracked operand is handed over as a fresh reshaped view every other time (a handle
             // nobody else holds, on storage somebody else does: C08 against "unshared, so reusable")
-            let c = if !any_tracked && uid % 2 == 1 { a[0].reshape(a[0].dimensions().to_vec()) } else { a[0].clone() };
+            let c = if !any_tracked && salt % 2 == 1 { a[0].reshape(a[0].dimensions().to_vec()) } else { a[0].clone() };
             let c = if *detach { c.untracked() } else { c };
             match act {
                 crate::event::Act::None => c,
@@ -313,7 +315,7 @@ pub fn apply_op(sh: &Rc<Shared>, uid: usize, op: &Op, a: &[&Array], any_tracked:
         }
         Op::Custom { kind, coef, script } => {
             // two nodes out of three use closure objects defined once for the whole program
-            let tagged = uid % 3 != 0;
+            let tagged = (salt + coef.len()) % 3 != 0;
             let (f, b) = custom_op(sh, uid, kind, coef, script, tagged);
             // the user always supplies a derivative closure, as in the documented example; whether a graph
             // is recorded for untracked operands is the library's decision (C09)
